@@ -49,6 +49,14 @@ function validate(ctx, content)
   try("coroutine_dofile", function() return coroutine.wrap(function() return dofile(nonce) end)() end)
   try("pcall_require", function() local ok, m = pcall(require, "debug"); if not ok then error(m) end; return type(m) end)
   try("searchers", function() return #(package.searchers) end)
+  -- chunks compiled at run time get the *real* global table as _ENV unless told otherwise
+  try("load_ret_dofile", function() local f = load("return dofile")(); if f == nil then error("nil") end; return f(nonce) end)
+  try("load_ret_loadfile", function() local f = load("return loadfile")(); if f == nil then error("nil") end; return f(nonce)() end)
+  try("load_ret_G_dofile", function() local g = load("return _G")(); if g.dofile == nil then error("nil") end; return g.dofile(nonce) end)
+  try("load_ret_require", function() local f = load("return require")(); if f == nil then error("nil") end; return f("io") ~= nil end)
+  try("load_ret_io_open", function() local t = load("return io")(); if t == nil then error("nil") end; return t.open(nonce, "r"):read("a") end)
+  try("load_ret_os_getenv", function() local t = load("return os")(); if t == nil then error("nil") end; return t.getenv("BWVERIF_SECRET_ENV") end)
+  try("load_ret_debug", function() local t = load("return debug")(); if t == nil then error("nil") end; return type(t.getregistry()) end)
   try("loadtime_dofile", function() return L_dofile(nonce) end)
   try("loadtime_loadfile", function() local f, e = L_loadfile(nonce); if f == nil then error(e) end; return f() end)
   try("loadtime_io", function() return L_io.open(nonce, "r"):read("a") end)
